@@ -43,6 +43,10 @@ def oracle():
 
 def check(ctx):
     prog = ctx.prog
+    W1 = ctx.rule("W1", "what the client can READ of an error answer and of a polled object: member names per RFC 8555 / RFC 7807, unknown members ignored (a problem document with extension members is still classified)")
+    from .wire_shape import check_read_shapes
+    check_read_shapes(ctx, W1, ["acmed::acme_proto::structs::error::HttpApiError", "acmed::acme_proto::structs::order::Order", "acmed::acme_proto::structs::order::OrderStatus",
+                                "acmed::acme_proto::structs::authorization::Authorization", "acmed::acme_proto::structs::authorization::AuthorizationStatus"])
     orc = oracle()
     R1 = ctx.rule("R1", "AcmeError::is_recoverable is true exactly for badNonce, connection, dns, malformed, rateLimited, serverInternal, tls")
     b = prog.must_body(ERR + "::is_recoverable")
